@@ -434,6 +434,35 @@ def run(ctx):
             ctx.check(okc, "C13-R3", "kv-count-complete",
                       "the list whose length picks the terminator gets exactly one element for every key of the statement (pushed in the kvp_key arm on every path, nowhere else): %d push site(s)" % len(pushes),
                       f.where(nb))
+            # ... and the scan over the list's children runs to its end: from every arm of the key / value match — also
+            # the arm for children that are neither (a capture-modifier word) — the next iterator step reached is the
+            # scan's own `next()` (a `break` there falls out of the scan and hides every later key, `ref` among them)
+            for (hb3, arms3, other3, _asr3) in finder.handled_rules(f, facts):
+                if "kvp_key" not in arms3 or key_loop is None:
+                    continue
+                all_next = {c.bb for c in f.calls_to(r"Iterator>::next$")}
+                bad_arms = []
+                for nm, arm in sorted(list(arms3.items()) + [("other children", other3)], key=lambda x: str(x[0])):
+                    if arm is None:
+                        continue
+                    seen3, todo3, first = set(), [arm], set()
+                    while todo3:
+                        b3 = todo3.pop()
+                        if b3 in seen3:
+                            continue
+                        seen3.add(b3)
+                        if b3 in all_next:
+                            first.add(b3)
+                            continue
+                        t3 = f.term(b3)
+                        for tg in f.succ[b3]:
+                            if tg != t3.get("unwind"):
+                                todo3.append(tg)
+                    if first - {key_loop.bb}:
+                        bad_arms.append("%s → next() at %s" % (nm, ", ".join(f.where(x) for x in sorted(first - {key_loop.bb}))))
+                ctx.check(not bad_arms, "C13-R3", "kv-scan-complete",
+                          "after every child of the key-value list the scan goes on with the next child (arms that leave the scan: %s)" % (bad_arms or "none"),
+                          key_loop.where())
         # total = number of collected key-values (same vec that is searched)
     # ---- R4 anchor ------------------------------------------------------------------------
     rule_anchor_provenance(ctx, facts, g, "C13-R4")
